@@ -147,6 +147,43 @@ func runC04(c *eng.Ctx) {
 			finish(idx, r, "pair")
 		}
 	}
+	// (b') an Add call that is refused half-way (a later output collides with an existing
+	// registration) after an earlier output of it was a group member / a plain identity / an
+	// alias: the call returns an error, and nothing of it shows up in the wiring
+	for _, l := range []godi.Lifetime{godi.Singleton, godi.Scoped, godi.Transient} {
+		refused := []struct {
+			name string
+			regs []Reg
+			bad  int // index of the registration that must be refused
+		}{
+			{"out-struct-after-its-group-field", []Reg{mkReg("Leaf_K1_a", l), mkReg("Leaf_K0_b", l, withGroup("g")), mkReg("OutG_K0K1", l), mkReg("Leaf_K0_c", l, withGroup("g")), mkReg("InU_3_1_Group", l)}, 2},
+			{"multi-return-after-its-first-output", []Reg{mkReg("Leaf_K1_b", l), mkReg("MR_K0K1", l), mkReg("Leaf_K0_a", l), mkReg("PosA_2_1", l)}, 1},
+			{"aliases-after-the-first-alias", []Reg{mkReg("Leaf_K1_a", l, withAs("IA")), mkReg("Leaf_K0_a", l, withAs("IK0", "IA")), mkReg("Leaf_K0_b", l, withAs("IK0")), mkReg("InU_2_1_Iface", l)}, 1},
+			{"two-group-fields-then-a-collision", []Reg{mkReg("Leaf_K1_c", l), mkReg("OutG_K0K1", l), mkReg("InU_3_1_Group", l)}, 1},
+		}
+		for _, rf := range refused {
+			idx, mine := cr.next()
+			if !mine {
+				continue
+			}
+			s := &Spec{Regs: rf.regs}
+			m := NewModel(s)
+			if m.Class != ClsOK || m.Accepted(rf.bad) {
+				panic(fmt.Sprintf("harness fixture %q of C04 (refused Add calls) is not what it is meant to be: class %s, registration %d accepted=%v", rf.name, m.Class, rf.bad, m.Accepted(rf.bad)))
+			}
+			c.R.Begin(idx)
+			c.R.Count("refused_add_call_cases", 1)
+			r := NewRun(s, m, nil, nil)
+			r.Build()
+			if r.Built {
+				sc := r.Do(Op{Kind: OpCreate, Scope: 0, CtxKind: 1})
+				ProbeAll(r, sc.NewScope)
+				ProbeRegistered(r, 0)
+				r.Finish()
+			}
+			finish(idx, r, "refused-add:"+rf.name)
+		}
+	}
 	// (c) random
 	n := c.Pick(1000, 40000)
 	for k := 0; k < n; k++ {
